@@ -53,7 +53,7 @@ def check_case(ctx, cfg, seed):
         for l, (name, iw) in enumerate(zip(res['names'], res['inv'])):
             if iw == r:
                 truth[name] = res['ops'][last_s]['factors'][l]
-    nlayers_world = cfg.pp * 2 * cfg.blocks
+    nlayers_world = (cfg.pp - (1 if getattr(cfg, 'empty_stage', None) is not None else 0)) * 2 * cfg.blocks
     if len(truth) != nlayers_world:
         ctx.fail(f'{len(truth)} layers have an inverse worker, expected {nlayers_world}', case, 'neox-inv-workers')
         return
